@@ -625,8 +625,22 @@ fn run_case(case: &Case) -> Verdict {
                         resync_all = true;
                     } else if matches!(dst_node, Some(Node::Dir)) && !dst.ends_with('/') {
                         let target = format!("{}/{}", dst, base(src));
-                        if t.contains_key(&target) || target == *src {
-                            // an entry of that name already in the directory: not settled
+                        if target == *src {
+                            // moving a file into the directory it is in: the same file under the same name. Whatever it
+                            // answers, the file must survive with its content (as for `mv f f`)
+                            world.op("mv", &[src.clone(), dst.clone()], &Want::Any, &[src.clone(), dst.clone()]);
+                            sim::with_core(|c| c.probe("mv-into-its-own-directory"));
+                        } else if matches!(t.get(&target), Some(Node::File(_))) {
+                            // a file of that name already in the directory: refusing and replacing are both accepted,
+                            // but answer and tree must agree - refused and nothing touched, or true and moved
+                            let got = world.op("mv", &[src.clone(), dst.clone()], &Want::Any, &[src.clone(), dst.clone()]);
+                            sim::with_core(|c| c.probe("mv-into-directory-holding-that-name"));
+                            if got.val() == Some("true") {
+                                t.remove(src);
+                                t.insert(target, Node::File(content));
+                            }
+                        } else if t.contains_key(&target) {
+                            // a directory of that name already in the directory: not settled
                             world.op("mv", &[src.clone(), dst.clone()], &Want::Any, &[src.clone(), dst.clone()]);
                             resync_all = true;
                         } else {
@@ -973,6 +987,9 @@ fn gen_op(rng: &mut Rng) -> Op {
         Op::Rm(p, r) if rng.chance(1, 10) => Op::Rm(dotted_spelling(rng, p), *r),
         Op::Rmdir(p) if rng.chance(1, 8) => Op::Rmdir(dotted_spelling(rng, p)),
         Op::IsDir(p) | Op::Exists(p) if rng.chance(1, 10) => with_paths(&op, &[dotted_spelling(rng, p)]),
+        // a file moved or copied into the directory it is already in (the target is then the file itself)
+        Op::Mv(a, _) if rng.chance(1, 10) && parent(a).map(|d| d != ROOT).unwrap_or(false) => Op::Mv(a.clone(), parent(a).unwrap()),
+        Op::Cp(a, _) if rng.chance(1, 14) && parent(a).map(|d| d != ROOT).unwrap_or(false) => Op::Cp(a.clone(), parent(a).unwrap()),
         _ => op,
     };
     match &op {
